@@ -1,1 +1,876 @@
-// placeholder
+//! GameSpy 1 / 2 / 3 reference servers (node-gamedig gamespy{1,2,3}.js).
+
+use super::*;
+use crate::vnet::{Chooser, ConnInfo, Responder};
+use gamedig::protocols::gamespy;
+use std::collections::HashMap;
+
+// ===========================================================================
+// GameSpy 1
+
+#[derive(Clone, Debug, PartialEq)]
+pub struct Gs1Player {
+    /// "player" or "playername"
+    pub name_key: &'static str,
+    pub name: String,
+    pub frags: i32,
+    pub ping: u16,
+    pub team: Option<u8>,
+    pub face: Option<String>,
+    pub skin: Option<String>,
+    pub mesh: Option<String>,
+    pub deaths: Option<u32>,
+    pub health: Option<u32>,
+    pub secret: Option<bool>,
+}
+
+#[derive(Clone, Debug, PartialEq)]
+pub struct Gs1State {
+    pub hostname: String,
+    pub mapname: String,
+    pub gametype: String,
+    pub gamever: String,
+    /// text of the password variable ("0", "1", "true", "False", ...)
+    pub password: String,
+    pub maxplayers: u32,
+    pub maptitle: Option<String>,
+    pub admin_email: Option<String>,
+    pub admin_name: Option<String>,
+    pub admin: Option<String>,
+    pub minplayers: Option<u8>,
+    pub tournament: Option<String>,
+    pub numplayers: Option<u32>,
+    pub extra: Vec<(String, String)>,
+    pub players: Vec<Gs1Player>,
+    pub query_id: u32,
+}
+
+impl Gs1State {
+    pub fn pairs(&self) -> Vec<(String, String)> {
+        let mut v: Vec<(String, String)> = vec![
+            ("hostname".into(), self.hostname.clone()),
+            ("mapname".into(), self.mapname.clone()),
+            ("gametype".into(), self.gametype.clone()),
+            ("gamever".into(), self.gamever.clone()),
+            ("password".into(), self.password.clone()),
+            ("maxplayers".into(), self.maxplayers.to_string()),
+        ];
+        if let Some(x) = &self.maptitle {
+            v.push(("maptitle".into(), x.clone()));
+        }
+        if let Some(x) = &self.admin_email {
+            v.push(("AdminEMail".into(), x.clone()));
+        }
+        if let Some(x) = &self.admin_name {
+            v.push(("AdminName".into(), x.clone()));
+        }
+        if let Some(x) = &self.admin {
+            v.push(("admin".into(), x.clone()));
+        }
+        if let Some(x) = &self.minplayers {
+            v.push(("minplayers".into(), x.to_string()));
+        }
+        if let Some(x) = &self.tournament {
+            v.push(("tournament".into(), x.clone()));
+        }
+        if let Some(x) = &self.numplayers {
+            v.push(("numplayers".into(), x.to_string()));
+        }
+        v.extend(self.extra.iter().cloned());
+        for (i, p) in self.players.iter().enumerate() {
+            v.push((format!("{}_{i}", p.name_key), p.name.clone()));
+            v.push((format!("frags_{i}"), p.frags.to_string()));
+            v.push((format!("ping_{i}"), p.ping.to_string()));
+            if let Some(t) = p.team {
+                v.push((format!("team_{i}"), t.to_string()));
+            }
+            if let Some(t) = &p.face {
+                v.push((format!("face_{i}"), t.clone()));
+            }
+            if let Some(t) = &p.skin {
+                v.push((format!("skin_{i}"), t.clone()));
+            }
+            if let Some(t) = &p.mesh {
+                v.push((format!("mesh_{i}"), t.clone()));
+            }
+            if let Some(t) = p.deaths {
+                v.push((format!("deaths_{i}"), t.to_string()));
+            }
+            if let Some(t) = p.health {
+                v.push((format!("health_{i}"), t.to_string()));
+            }
+            if let Some(t) = p.secret {
+                v.push((format!("ngsecret_{i}"), if t { "true".into() } else { "false".into() }));
+            }
+        }
+        v
+    }
+
+    /// Datagrams for `parts` parts, pairs distributed evenly (at pair
+    /// boundaries); `cut_at`: explicit pair indices where a new part starts.
+    pub fn datagrams(&self, cut_at: &[usize]) -> Vec<Vec<u8>> {
+        let pairs = self.pairs();
+        let mut parts: Vec<Vec<(String, String)>> = Vec::new();
+        let mut last = 0;
+        for &c in cut_at {
+            let c = c.min(pairs.len());
+            parts.push(pairs[last .. c].to_vec());
+            last = c;
+        }
+        parts.push(pairs[last ..].to_vec());
+        let n = parts.len();
+        parts
+            .iter()
+            .enumerate()
+            .map(|(i, ps)| {
+                let mut s = String::new();
+                for (k, v) in ps {
+                    s.push('\\');
+                    s.push_str(k);
+                    s.push('\\');
+                    s.push_str(v);
+                }
+                if i + 1 == n {
+                    s.push_str("\\final\\");
+                }
+                s.push_str(&format!("\\queryid\\{}.{}", self.query_id, i + 1));
+                s.into_bytes()
+            })
+            .collect()
+    }
+
+    pub fn expected(&self) -> gamespy::one::Response {
+        let pw = self.password.to_lowercase();
+        let has_password = match pw.parse::<bool>() {
+            Ok(b) => b,
+            Err(_) => pw.parse::<u8>().map(|n| n != 0).unwrap_or(false),
+        };
+        let mut unused: HashMap<String, String> = self.extra.iter().cloned().collect();
+        if let Some(n) = self.numplayers {
+            unused.insert("numplayers".into(), n.to_string());
+        }
+        // with both spellings present the first one is the admin name, the other stays a plain variable
+        let admin_name = match (&self.admin_name, &self.admin) {
+            (Some(a), Some(b)) => {
+                unused.insert("admin".into(), b.clone());
+                Some(a.clone())
+            }
+            (Some(a), None) => Some(a.clone()),
+            (None, Some(b)) => Some(b.clone()),
+            (None, None) => None,
+        };
+        gamespy::one::Response {
+            name: self.hostname.clone(),
+            map: self.mapname.clone(),
+            map_title: self.maptitle.clone(),
+            admin_contact: self.admin_email.clone(),
+            admin_name,
+            has_password,
+            game_mode: self.gametype.clone(),
+            game_version: self.gamever.clone(),
+            players_maximum: self.maxplayers,
+            players_online: self.players.len() as u32,
+            players_minimum: self.minplayers,
+            players: self
+                .players
+                .iter()
+                .map(|p| {
+                    gamespy::one::Player {
+                        name: p.name.clone(),
+                        team: p.team,
+                        ping: p.ping,
+                        face: p.face.clone(),
+                        skin: p.skin.clone(),
+                        mesh: p.mesh.clone(),
+                        score: p.frags,
+                        deaths: p.deaths,
+                        health: p.health,
+                        secret: p.secret,
+                    }
+                })
+                .collect(),
+            tournament: self
+                .tournament
+                .as_ref()
+                .map(|t| t.to_lowercase() == "true")
+                .unwrap_or(true),
+            unused_entries: unused,
+        }
+    }
+
+    pub fn expected_vars(&self) -> HashMap<String, String> { self.pairs().into_iter().collect() }
+}
+
+/// Strings valid inside a backslash-delimited GameSpy 1 value.
+pub fn gs1_str(c: &mut Chooser, default: &str) -> String {
+    pick(c, &[
+        default.to_string(),
+        String::new(),
+        "a".to_string(),
+        "Zürich 東京 ☃".to_string(),
+        "with space_and_underscore".to_string(),
+        long_string(120),
+    ])
+}
+
+pub fn gen_gs1(c: &mut Chooser, player_counts: &[usize]) -> Gs1State {
+    let hostname = gs1_str(c, "A GameSpy server");
+    let mapname = gs1_str(c, "DM-Deck16");
+    let gametype = gs1_str(c, "DeathMatch");
+    let gamever = gs1_str(c, "436");
+    let password = pick(c, &["0", "1", "true", "False", "TRUE", "255"]).to_string();
+    let maxplayers = pick(c, &[16u32, 0, 1, 64, 255]);
+    let maptitle = pick(c, &[Some("Deck 16".to_string()), None, Some(String::new())]);
+    let admin_email = pick(c, &[None, Some("admin@example.org".to_string())]);
+    let (admin_name, admin) = pick(c, &[
+        (None, None),
+        (Some("Root".to_string()), None),
+        (None, Some("Toor".to_string())),
+        (Some("Root".to_string()), Some("Toor".to_string())),
+    ]);
+    let minplayers = pick(c, &[None, Some(0u8), Some(2), Some(255)]);
+    let tournament = pick(c, &[
+        None,
+        Some("true".to_string()),
+        Some("False".to_string()),
+        Some("TRUE".to_string()),
+    ]);
+    let numplayers = pick(c, &[None, Some(2u32), Some(0), Some(64)]);
+    let n_extra = pick(c, &[1usize, 0, 3]);
+    let extra: Vec<(String, String)> = (0 .. n_extra)
+        .map(|i| {
+            (
+                pick(c, &[
+                    format!("extra{i}"),
+                    format!("worldlog_{i}x"),
+                    format!("odd key {i}"),
+                    format!("a_b_{i}"),
+                ]),
+                gs1_str(c, "some value"),
+            )
+        })
+        .collect();
+    let n = pick(c, player_counts);
+    let players = (0 .. n)
+        .map(|i| {
+            if i < 2 {
+                Gs1Player {
+                    name_key: pick(c, &["player", "playername"]),
+                    name: gs1_str(c, if i == 0 { "Alice" } else { "Bob B" }),
+                    frags: pick(c, &[7 + i as i32, 0, -1, i32::MAX, i32::MIN]),
+                    ping: pick(c, &[40 + i as u16, 0, 65535]),
+                    team: pick(c, &[Some(i as u8), None, Some(255)]),
+                    face: pick(c, &[None, Some("face.png".to_string()), Some(String::new())]),
+                    skin: pick(c, &[None, Some("skin one".to_string())]),
+                    mesh: pick(c, &[None, Some("mesh".to_string())]),
+                    deaths: pick(c, &[None, Some(3u32), Some(u32::MAX)]),
+                    health: pick(c, &[None, Some(100u32), Some(0)]),
+                    secret: pick(c, &[None, Some(true), Some(false)]),
+                }
+            } else {
+                Gs1Player {
+                    name_key: "player",
+                    name: format!("p{i}"),
+                    frags: i as i32,
+                    ping: i as u16,
+                    team: Some((i % 2) as u8),
+                    face: None,
+                    skin: None,
+                    mesh: None,
+                    deaths: None,
+                    health: None,
+                    secret: None,
+                }
+            }
+        })
+        .collect();
+    Gs1State {
+        hostname,
+        mapname,
+        gametype,
+        gamever,
+        password,
+        maxplayers,
+        maptitle,
+        admin_email,
+        admin_name,
+        admin,
+        minplayers,
+        tournament,
+        numplayers,
+        extra,
+        players,
+        query_id: pick(c, &[7u32, 0, 1, u32::MAX]),
+    }
+}
+
+pub struct Gs1Server {
+    pub state: Gs1State,
+    pub cut_at: Vec<usize>,
+}
+
+pub const GS1_REQUEST: &[u8] = b"\\status\\xserverquery";
+
+impl Responder for Gs1Server {
+    fn on_datagram(&mut self, _c: &ConnInfo, data: &[u8]) -> Vec<Vec<u8>> {
+        if data == GS1_REQUEST {
+            self.state.datagrams(&self.cut_at)
+        } else {
+            vec![]
+        }
+    }
+}
+
+// ===========================================================================
+// GameSpy 2
+
+#[derive(Clone, Debug, PartialEq)]
+pub struct Gs2State {
+    pub hostname: String,
+    pub mapname: String,
+    pub password: String,
+    pub maxplayers: u32,
+    pub numplayers: Option<u32>,
+    pub minplayers: Option<u32>,
+    pub extra: Vec<(String, String)>,
+    pub players: Vec<(String, u16, u16, u16)>,
+    pub teams: Vec<(String, u16)>,
+}
+
+impl Gs2State {
+    pub fn pairs(&self) -> Vec<(String, String)> {
+        let mut v: Vec<(String, String)> = vec![
+            ("hostname".into(), self.hostname.clone()),
+            ("mapname".into(), self.mapname.clone()),
+            ("password".into(), self.password.clone()),
+            ("maxplayers".into(), self.maxplayers.to_string()),
+        ];
+        if let Some(n) = self.numplayers {
+            v.push(("numplayers".into(), n.to_string()));
+        }
+        if let Some(n) = self.minplayers {
+            v.push(("minplayers".into(), n.to_string()));
+        }
+        v.extend(self.extra.iter().cloned());
+        v
+    }
+
+    pub fn datagram(&self) -> Vec<u8> {
+        let mut b = vec![0x00, 0x00, 0x00, 0x00, 0x01];
+        for (k, v) in self.pairs() {
+            cstr(&mut b, &k);
+            cstr(&mut b, &v);
+        }
+        b.push(0); // empty key ends the block
+        // player table: 00, row count, column names, empty name, cells
+        b.push(0);
+        b.push(self.players.len() as u8);
+        for col in ["player_", "score_", "ping_", "team_"] {
+            cstr(&mut b, col);
+        }
+        b.push(0);
+        for (n, s, p, t) in &self.players {
+            cstr(&mut b, n);
+            cstr(&mut b, &s.to_string());
+            cstr(&mut b, &p.to_string());
+            cstr(&mut b, &t.to_string());
+        }
+        // team table
+        b.push(0);
+        b.push(self.teams.len() as u8);
+        for col in ["team_t", "score_t"] {
+            cstr(&mut b, col);
+        }
+        b.push(0);
+        for (n, s) in &self.teams {
+            cstr(&mut b, n);
+            cstr(&mut b, &s.to_string());
+        }
+        b
+    }
+
+    pub fn expected(&self) -> gamespy::two::Response {
+        let listed = self.players.len() as u32;
+        gamespy::two::Response {
+            name: self.hostname.clone(),
+            map: self.mapname.clone(),
+            has_password: self.password == "1",
+            teams: self
+                .teams
+                .iter()
+                .map(|(n, s)| {
+                    gamespy::two::Team {
+                        name: n.clone(),
+                        score: *s,
+                    }
+                })
+                .collect(),
+            players_maximum: self.maxplayers,
+            players_online: match self.numplayers {
+                None => listed,
+                Some(n) => n.max(listed),
+            },
+            players_minimum: self.minplayers,
+            players: self
+                .players
+                .iter()
+                .map(|(n, s, p, t)| {
+                    gamespy::two::Player {
+                        name: n.clone(),
+                        score: *s,
+                        ping: *p,
+                        team_index: *t,
+                    }
+                })
+                .collect(),
+            unused_entries: self.extra.iter().cloned().collect(),
+        }
+    }
+}
+
+/// NUL-free, non-empty-where-required strings for GameSpy 2/3 cells.
+pub fn cell_str(c: &mut Chooser, default: &str) -> String {
+    pick(c, &[
+        default.to_string(),
+        "a".to_string(),
+        "Zürich 東京 ☃".to_string(),
+        "with space \\ and _".to_string(),
+        long_string(100),
+    ])
+}
+
+pub fn gen_gs2(c: &mut Chooser, player_counts: &[usize], team_counts: &[usize]) -> Gs2State {
+    let hostname = pick_str(c, "Halo server");
+    let mapname = pick_str(c, "bloodgulch");
+    let password = pick(c, &["0", "1", "2", ""]).to_string();
+    let maxplayers = pick(c, &u32_alts(16));
+    let numplayers = pick(c, &[Some(2u32), None, Some(0), Some(64), Some(u32::MAX)]);
+    let minplayers = pick(c, &[None, Some(0u32), Some(u32::MAX)]);
+    let n_extra = pick(c, &[1usize, 0, 3]);
+    let extra = (0 .. n_extra)
+        .map(|i| (format!("gamevariant{i}"), pick_str(c, "Slayer")))
+        .collect();
+    let n = pick(c, player_counts);
+    let players = (0 .. n)
+        .map(|i| {
+            if i < 2 {
+                (
+                    cell_str(c, if i == 0 { "Alice" } else { "Bob" }),
+                    pick(c, &u16_alts(5 + i as u16)),
+                    pick(c, &u16_alts(30)),
+                    pick(c, &u16_alts(i as u16)),
+                )
+            } else {
+                (format!("p{i}"), i as u16, 2 * i as u16, (i % 2) as u16)
+            }
+        })
+        .collect();
+    let t = pick(c, team_counts);
+    let teams = (0 .. t)
+        .map(|i| {
+            if i < 2 {
+                (
+                    cell_str(c, if i == 0 { "Red" } else { "Blue" }),
+                    pick(c, &u16_alts(3 + i as u16)),
+                )
+            } else {
+                (format!("team{i}"), i as u16)
+            }
+        })
+        .collect();
+    Gs2State {
+        hostname,
+        mapname,
+        password,
+        maxplayers,
+        numplayers,
+        minplayers,
+        extra,
+        players,
+        teams,
+    }
+}
+
+pub const GS2_REQUEST: &[u8] = &[0xFE, 0xFD, 0x00, 0x00, 0x00, 0x00, 0x01, 0xFF, 0xFF, 0xFF];
+
+pub struct Gs2Server {
+    pub state: Gs2State,
+}
+
+impl Responder for Gs2Server {
+    fn on_datagram(&mut self, _c: &ConnInfo, data: &[u8]) -> Vec<Vec<u8>> {
+        if data == GS2_REQUEST {
+            vec![self.state.datagram()]
+        } else {
+            vec![]
+        }
+    }
+}
+
+// ===========================================================================
+// GameSpy 3
+
+#[derive(Clone, Debug, PartialEq)]
+pub struct Gs3Player {
+    pub name: String,
+    pub score: i32,
+    pub ping: u16,
+    pub team: u8,
+    pub deaths: u32,
+    pub skill: u32,
+    pub pid: Option<String>,
+}
+
+#[derive(Clone, Debug, PartialEq)]
+pub struct Gs3State {
+    pub hostname: String,
+    pub mapname: String,
+    pub gametype: String,
+    pub gamever: String,
+    pub password: String,
+    pub maxplayers: u32,
+    pub minplayers: Option<u8>,
+    pub numplayers: Option<u32>,
+    pub tournament: Option<String>,
+    pub extra: Vec<(String, String)>,
+    pub players: Vec<Gs3Player>,
+    pub teams: Vec<(String, i32)>,
+    /// text of the challenge sent in the handshake
+    pub challenge: String,
+}
+
+/// One logical piece of the reply body that must not be cut.
+#[derive(Clone, Debug)]
+enum Atom {
+    Kv(String, String),
+    KvEnd,
+    /// (section type 1|2, field name, item index, value)
+    Item(u8, &'static str, usize, String),
+}
+
+impl Gs3State {
+    pub fn pairs(&self) -> Vec<(String, String)> {
+        let mut v: Vec<(String, String)> = vec![
+            ("hostname".into(), self.hostname.clone()),
+            ("mapname".into(), self.mapname.clone()),
+            ("gametype".into(), self.gametype.clone()),
+            ("gamever".into(), self.gamever.clone()),
+            ("password".into(), self.password.clone()),
+            ("maxplayers".into(), self.maxplayers.to_string()),
+        ];
+        if let Some(n) = self.minplayers {
+            v.push(("minplayers".into(), n.to_string()));
+        }
+        if let Some(n) = self.numplayers {
+            v.push(("numplayers".into(), n.to_string()));
+        }
+        if let Some(t) = &self.tournament {
+            v.push(("tournament".into(), t.clone()));
+        }
+        v.extend(self.extra.iter().cloned());
+        v
+    }
+
+    fn atoms(&self) -> Vec<Atom> {
+        let mut a: Vec<Atom> = self.pairs().into_iter().map(|(k, v)| Atom::Kv(k, v)).collect();
+        a.push(Atom::KvEnd);
+        let has_pid = self.players.iter().any(|p| p.pid.is_some());
+        let mut fields: Vec<(&'static str, Vec<String>)> = vec![
+            ("player_", self.players.iter().map(|p| p.name.clone()).collect()),
+            ("score_", self.players.iter().map(|p| p.score.to_string()).collect()),
+            ("ping_", self.players.iter().map(|p| p.ping.to_string()).collect()),
+            ("team_", self.players.iter().map(|p| p.team.to_string()).collect()),
+            ("deaths_", self.players.iter().map(|p| p.deaths.to_string()).collect()),
+            ("skill_", self.players.iter().map(|p| p.skill.to_string()).collect()),
+        ];
+        if has_pid {
+            fields.insert(
+                4,
+                (
+                    "pid_",
+                    self.players
+                        .iter()
+                        .map(|p| p.pid.clone().unwrap_or_else(|| "0".into()))
+                        .collect(),
+                ),
+            );
+        }
+        for (name, vals) in fields {
+            for (i, v) in vals.into_iter().enumerate() {
+                a.push(Atom::Item(1, name, i, v));
+            }
+        }
+        let tfields: Vec<(&'static str, Vec<String>)> = vec![
+            ("team_t", self.teams.iter().map(|t| t.0.clone()).collect()),
+            ("score_t", self.teams.iter().map(|t| t.1.to_string()).collect()),
+        ];
+        for (name, vals) in tfields {
+            for (i, v) in vals.into_iter().enumerate() {
+                a.push(Atom::Item(2, name, i, v));
+            }
+        }
+        a
+    }
+
+    pub fn n_atoms(&self) -> usize { self.atoms().len() }
+
+    /// index of the first atom after the key/value block
+    pub fn first_data_atom(&self) -> usize { self.pairs().len() + 1 }
+
+    /// Reply packets, cut before the atoms whose indices are in `cut_at`.
+    pub fn packets(&self, cut_at: &[usize]) -> Vec<Vec<u8>> {
+        let atoms = self.atoms();
+        // the key/value block lives in the first packet only (gamespy3.js: "the
+        // following packets will only have data fields")
+        let kv_end = atoms.iter().position(|a| matches!(a, Atom::KvEnd)).unwrap() + 1;
+        let mut groups: Vec<&[Atom]> = Vec::new();
+        let mut last = 0;
+        for &c in cut_at {
+            let c = c.max(kv_end).clamp(last, atoms.len());
+            if c > last {
+                groups.push(&atoms[last .. c]);
+                last = c;
+            }
+        }
+        groups.push(&atoms[last ..]);
+        let n = groups.len();
+        groups
+            .iter()
+            .enumerate()
+            .map(|(pi, g)| {
+                let mut b = vec![0x00, 0x00, 0x00, 0x00, 0x01];
+                cstr(&mut b, "splitnum");
+                b.push((pi as u8) | if pi + 1 == n { 0x80 } else { 0 });
+                // type of the section this packet starts in
+                let first_type = match g.first() {
+                    Some(Atom::Item(t, ..)) => *t,
+                    _ => 0,
+                };
+                b.push(first_type);
+                let mut cur_section: u8 = first_type;
+                let mut cur_field: Option<&'static str> = None;
+                for atom in g.iter() {
+                    match atom {
+                        Atom::Kv(k, v) => {
+                            cstr(&mut b, k);
+                            cstr(&mut b, v);
+                        }
+                        Atom::KvEnd => b.push(0),
+                        Atom::Item(t, name, idx, val) => {
+                            if cur_field != Some(*name) {
+                                if cur_field.is_some() {
+                                    b.push(0); // end of the previous field's value list
+                                }
+                                if cur_section != *t {
+                                    if cur_section != 0 {
+                                        b.push(0); // end of the previous section
+                                    }
+                                    b.push(*t);
+                                    cur_section = *t;
+                                }
+                                cstr(&mut b, name);
+                                b.push(*idx as u8);
+                                cur_field = Some(*name);
+                            }
+                            cstr(&mut b, val);
+                        }
+                    }
+                }
+                if cur_field.is_some() {
+                    b.push(0);
+                    b.push(0);
+                }
+                b
+            })
+            .collect()
+    }
+
+    pub fn expected(&self) -> gamespy::three::Response {
+        let pw = self.password.to_lowercase();
+        let has_password = match pw.parse::<bool>() {
+            Ok(b) => b,
+            Err(_) => pw.parse::<u8>().map(|n| n != 0).unwrap_or(false),
+        };
+        let listed = self.players.len() as u32;
+        gamespy::three::Response {
+            name: self.hostname.clone(),
+            map: self.mapname.clone(),
+            has_password,
+            game_mode: self.gametype.clone(),
+            game_version: self.gamever.clone(),
+            players_maximum: self.maxplayers,
+            players_online: match self.numplayers {
+                None => listed,
+                Some(n) => n.max(listed),
+            },
+            players_minimum: self.minplayers,
+            players: self
+                .players
+                .iter()
+                .map(|p| {
+                    gamespy::three::Player {
+                        name: p.name.clone(),
+                        score: p.score,
+                        ping: p.ping,
+                        team: p.team,
+                        deaths: p.deaths,
+                        skill: p.skill,
+                    }
+                })
+                .collect(),
+            teams: self
+                .teams
+                .iter()
+                .map(|(n, s)| {
+                    gamespy::three::Team {
+                        name: n.clone(),
+                        score: *s,
+                    }
+                })
+                .collect(),
+            tournament: self
+                .tournament
+                .as_ref()
+                .map(|t| t.to_lowercase() == "true")
+                .unwrap_or(true),
+            unused_entries: self.extra.iter().cloned().collect(),
+        }
+    }
+
+    pub fn expected_vars(&self) -> HashMap<String, String> { self.pairs().into_iter().collect() }
+}
+
+pub fn gen_gs3(c: &mut Chooser, player_counts: &[usize], team_counts: &[usize]) -> Gs3State {
+    let hostname = pick_str(c, "Crysis Wars server");
+    let mapname = pick_str(c, "multiplayer/ps/mesa");
+    let gametype = pick_str(c, "PowerStruggle");
+    let gamever = pick_str(c, "1.1.1.6729");
+    let password = pick(c, &["0", "1", "true", "False", "255"]).to_string();
+    let maxplayers = pick(c, &u32_alts(32));
+    let minplayers = pick(c, &[None, Some(0u8), Some(255)]);
+    let numplayers = pick(c, &[Some(2u32), None, Some(0), Some(64), Some(u32::MAX)]);
+    let tournament = pick(c, &[None, Some("true".to_string()), Some("False".to_string())]);
+    let n_extra = pick(c, &[1usize, 0, 3]);
+    let extra = (0 .. n_extra)
+        .map(|i| {
+            (
+                pick(c, &[format!("timelimit{i}"), format!("player_flags{i}"), format!("x y {i}")]),
+                pick_str(c, "60"),
+            )
+        })
+        .collect();
+    let n = pick(c, player_counts);
+    let with_pid = pick(c, &[false, true]);
+    let players = (0 .. n)
+        .map(|i| {
+            if i < 2 {
+                Gs3Player {
+                    name: cell_str(c, if i == 0 { "Alice" } else { "Bob" }),
+                    score: pick(c, &i32_alts(12 + i as i32)),
+                    ping: pick(c, &u16_alts(25)),
+                    team: pick(c, &u8_alts(1 + i as u8)),
+                    deaths: pick(c, &u32_alts(4)),
+                    skill: pick(c, &u32_alts(900)),
+                    pid: if with_pid { Some(format!("{}", 1000 + i)) } else { None },
+                }
+            } else {
+                Gs3Player {
+                    name: format!("p{i}"),
+                    score: i as i32,
+                    ping: i as u16,
+                    team: (i % 2) as u8,
+                    deaths: i as u32,
+                    skill: 10 * i as u32,
+                    pid: if with_pid { Some(format!("{}", 1000 + i)) } else { None },
+                }
+            }
+        })
+        .collect();
+    let t = pick(c, team_counts);
+    let teams = (0 .. t)
+        .map(|i| {
+            if i < 2 {
+                (
+                    cell_str(c, if i == 0 { "nk" } else { "us" }),
+                    pick(c, &i32_alts(2 + i as i32)),
+                )
+            } else {
+                (format!("team{i}"), i as i32)
+            }
+        })
+        .collect();
+    Gs3State {
+        hostname,
+        mapname,
+        gametype,
+        gamever,
+        password,
+        maxplayers,
+        minplayers,
+        numplayers,
+        tournament,
+        extra,
+        players,
+        teams,
+        challenge: "11223344".into(),
+    }
+}
+
+pub const GS3_HANDSHAKE: &[u8] = &[0xFE, 0xFD, 0x09, 0x00, 0x00, 0x00, 0x01];
+
+/// The data request the protocol defines for a given challenge text.
+pub fn gs3_data_request(challenge_text: &str, payload: [u8; 4]) -> Vec<u8> {
+    let mut b = vec![0xFE, 0xFD, 0x00, 0x00, 0x00, 0x00, 0x01];
+    let n: i64 = challenge_text.parse().unwrap_or(0);
+    if n != 0 {
+        b.extend_from_slice(&(n as i32).to_be_bytes());
+    }
+    b.extend_from_slice(&payload);
+    b
+}
+
+pub struct Gs3Server {
+    pub state: Gs3State,
+    pub cut_at: Vec<usize>,
+    pub payload: [u8; 4],
+    /// custom body generator for single-packet users (JC2-MP)
+    pub body_override: Option<Vec<Vec<u8>>>,
+    pub handshaken: bool,
+    pub bad_challenge: usize,
+}
+
+impl Gs3Server {
+    pub fn new(state: Gs3State, cut_at: Vec<usize>) -> Self {
+        Self {
+            state,
+            cut_at,
+            payload: [0xFF, 0xFF, 0xFF, 0x01],
+            body_override: None,
+            handshaken: false,
+            bad_challenge: 0,
+        }
+    }
+}
+
+impl Responder for Gs3Server {
+    fn on_datagram(&mut self, _c: &ConnInfo, data: &[u8]) -> Vec<Vec<u8>> {
+        if data == GS3_HANDSHAKE {
+            self.handshaken = true;
+            let mut b = vec![0x09, 0x00, 0x00, 0x00, 0x01];
+            cstr(&mut b, &self.state.challenge);
+            return vec![b];
+        }
+        if !self.handshaken {
+            return vec![];
+        }
+        if data == gs3_data_request(&self.state.challenge, self.payload).as_slice() {
+            match &self.body_override {
+                Some(b) => b.clone(),
+                None => self.state.packets(&self.cut_at),
+            }
+        } else {
+            self.bad_challenge += 1;
+            vec![]
+        }
+    }
+}
